@@ -232,3 +232,23 @@ Proof.
   intros H. unfold decode_varint, encode_varint.
   rewrite decode_encode_uvarint by (apply zigzag_lt; exact H). rewrite unzigzag_zigzag. reflexivity.
 Qed.
+
+(* --- EncodeIntToCmpUint / DecodeCmpUintToInt as exported functions: a bijection int64 <-> uint64 that is monotone --- *)
+Lemma cmp_to_int_range u : u < two64 -> int64_range (cmp_to_int u).
+Proof. unfold int64_range, cmp_to_int, two63, two64. lia. Qed.
+Lemma int_to_cmp_to_int u : u < two64 -> int_to_cmp (cmp_to_int u) = u.
+Proof. unfold int_to_cmp, cmp_to_int, two63, two64. lia. Qed.
+Lemma cmpuint_roundtrip v : int64_range v -> int_to_cmp v < two64 /\ cmp_to_int (int_to_cmp v) = v.
+Proof. intros H. split; [apply int_to_cmp_lt | apply cmp_to_int_to_cmp]; exact H. Qed.
+Lemma cmpuint_inverse u : u < two64 -> int64_range (cmp_to_int u) /\ int_to_cmp (cmp_to_int u) = u.
+Proof. intros H. split; [apply cmp_to_int_range | apply int_to_cmp_to_int]; exact H. Qed.
+Lemma cmp_to_int_cmp a b : a < two64 -> b < two64 ->
+  Z.compare (cmp_to_int a) (cmp_to_int b) = N.compare a b.
+Proof.
+  intros Ha Hb.
+  rewrite <- (int_to_cmp_to_int a Ha) at 2. rewrite <- (int_to_cmp_to_int b Hb) at 2.
+  symmetry. apply int_to_cmp_cmp; apply cmp_to_int_range; assumption.
+Qed.
+(* the fixed-width int encodings are the fixed-width uint encodings of the flipped value: the two call sites agree *)
+Lemma encode_int_is_uint v : encode_int v = encode_uint (int_to_cmp v) /\ encode_int_desc v = encode_uint_desc (int_to_cmp v).
+Proof. split; reflexivity. Qed.
